@@ -44,6 +44,16 @@ impl Case for VCase {
     }
 }
 
+/// Derived states (bincode round trip) are swept for every long input and for a quarter of the tiny ones.
+fn derived_wanted<T: std::hash::Hash>(input: &[T]) -> bool {
+    input.len() > 24 || h64(&input) % 4 == 0
+}
+
+fn round_trip<X: Serialize + serde::de::DeserializeOwned>(ctx: &mut Ctx, t: &X) -> Option<X> {
+    ctx.count("derived_states_swept");
+    ctx.total("deserialize(serialize(..))", "deserialized", 0, 0, 0, || bincode::deserialize::<X>(&bincode::serialize(t).unwrap()).unwrap())
+}
+
 fn run_quad<X: QuadRS>(ctx: &mut Ctx, gen: &Gen, path: u8, dense: usize) {
     let q: Vec<u8> = gen.abstract_seq().iter().map(|&s| (s % 4) as u8).collect();
     let r = RefSeq::new(&q);
@@ -76,6 +86,12 @@ fn run_quad<X: QuadRS>(ctx: &mut Ctx, gen: &Gen, path: u8, dense: usize) {
     });
     if let Some(t) = t {
         sweep_quadrs(ctx, &t, &r, dense, false, "");
+        // a state obtained by deserialization must answer like the one that was serialized
+        if derived_wanted(&q) {
+            if let Some(d) = round_trip(ctx, &t) {
+                sweep_quadrs(ctx, &d, &r, dense.min(600), false, "deserialized");
+            }
+        }
     }
 }
 
@@ -147,6 +163,11 @@ fn run_bin<X: BinRS>(ctx: &mut Ctx, gen: &BitGen, path: u8, dense: usize) {
     });
     if let Some(t) = t {
         sweep_binrs(ctx, &t, &r, dense, false, "");
+        if derived_wanted(&bits) {
+            if let Some(d) = round_trip(ctx, &t) {
+                sweep_binrs(ctx, &d, &r, dense.min(600), false, "deserialized");
+            }
+        }
     }
 }
 
@@ -189,6 +210,11 @@ fn run_darray<const S0: bool>(ctx: &mut Ctx, gen: &BitGen, path: u8, dense: usiz
         extra.truncate(24);
         let starts = with_pos_starts(r.len(), &extra);
         sweep_darray(ctx, &t, &r, dense, false, "", &starts);
+        if derived_wanted(&bits) {
+            if let Some(d) = round_trip(ctx, &t) {
+                sweep_darray(ctx, &d, &r, dense.min(600), false, "deserialized", &starts);
+            }
+        }
     }
 }
 
@@ -252,6 +278,26 @@ fn enumerate(args: &Args) -> Vec<VCase> {
                     }
                 }
             }
+            // the m*S-th zero (one) - where a select sample is taken, S = 1024 (RSNarrow) / 8192 (RSWide) - at a chosen
+            // distance d from the end of a vector whose length is (or is not) a multiple of 64 / 512
+            for s_rate in [1024usize, 8192] {
+                for m in [1usize, 2] {
+                    for extra in [64usize, 65, 127, 128, 512, 576] {
+                        let n = m * s_rate + extra;
+                        for d in [0usize, 1, 2, 62, 63, 64, 65] {
+                            if d + 1 > extra {
+                                continue;
+                            }
+                            let k = n - 1 - d - m * s_rate;
+                            for first in [false, true] {
+                                for ty in tys {
+                                    v.push(VCase::Bin { ty: ty.into(), gen: BitGen::PrefixRun { n, k, first }, path: (v.len() % 5) as u8, dense: 600 });
+                                }
+                            }
+                        }
+                    }
+                }
+            }
             // exact multiples of the block sizes times 8, +-1
             for base in [4096usize, 8192, 32768, 65536] {
                 for d in [0usize, 1, 2] {
@@ -289,7 +335,7 @@ fn enumerate(args: &Args) -> Vec<VCase> {
                 }
             }
             // the other threshold kinds and the spread dense kind in short shapes, all partials
-            let kinds2 = [Grp::D1, Grp::T0, Grp::T2, Grp::S, Grp::D];
+            let kinds2 = [Grp::D1, Grp::T0, Grp::T2, Grp::S, Grp::D, Grp::T1E, Grp::T1S];
             for sh in group_shapes(&kinds2, if th { 3 } else { 2 }) {
                 for &partial in &[0usize, 1, 32, 33, 65, 1023] {
                     for complement in [false, true] {
@@ -306,7 +352,7 @@ fn enumerate(args: &Args) -> Vec<VCase> {
             }
             // only a partial group, every threshold span (the last partial group can be dense or sparse too)
             for partial in [1usize, 2, 32, 33, 34, 64, 65, 97, 1023] {
-                for pk in [Grp::D, Grp::D1, Grp::T0, Grp::T1, Grp::T2, Grp::S] {
+                for pk in [Grp::D, Grp::D1, Grp::T0, Grp::T1, Grp::T2, Grp::S, Grp::T1E, Grp::T1S] {
                     for complement in [false, true] {
                         v.push(VCase::DArr { sel0: true, gen: BitGen::Groups { groups: vec![], partial, pk, lead: 0, tail: 0, complement }, path: (v.len() % 3) as u8, dense: 8193 });
                     }
